@@ -91,6 +91,10 @@ def run(ctx):
                    f'reviewed as benign)', ok,
                    f'{[qualname_of(f) for f in compound]} read and then write it without a lock (check-then-act)')
     ctx.floor('C15.R1', n, 8, 'run-time tables')
+    # the import-hook registry lives in attributes of the claw_state singleton rather than in module-level
+    # names: same lock-set condition, decided by the rule shared with C06.R1
+    from .c06 import lock_discipline
+    lock_discipline(ctx, repo, CallGraph(repo, prefixes=('beartype.claw',)), 'C15.R1')
 
     # ---- R2 ----------------------------------------------------------------------
     ctx.rule('C15.R2', 'BeartypeConf.__new__ and the CacheUnboundedStrong / CacheLruStrong / KeyPool methods perform '
@@ -114,13 +118,24 @@ def run(ctx):
     lm = repo.mod('beartype._util.cache.map.utilmaplru')
     lc = lm.defs.get('CacheLruStrong')
     if lc is not None:
+        nl = 0
         for fn in [x for x in lc.body if isinstance(x, ast.FunctionDef) and x.name not in ('__init__',)]:
-            uses = [x for x in walk_shallow(fn) if isinstance(x, ast.Call) and isinstance(x.func, ast.Attribute)
-                    and dotted(x.func.value) == 'super()' or (isinstance(x, ast.Call) and norm(x.func).startswith('super().'))]
+            # the underlying dict is reached through super() or through parameters defaulted to dict.<method>
+            a = fn.args
+            dflt = dict(zip([p.arg for p in (a.posonlyargs + a.args)[len(a.posonlyargs + a.args) - len(a.defaults):]], a.defaults))
+            raw = {p for p, d in dflt.items() if (dotted(d) or '').startswith('dict.')}
+            uses = [x for x in walk_shallow(fn) if isinstance(x, ast.Call) and (
+                norm(x.func).startswith('super().') or (isinstance(x.func, ast.Name) and x.func.id in raw)
+                or (dotted(x.func) or '').startswith('dict.'))]
             if not uses:
                 continue
-            ok = all(_enclosing_with(x, fn) is not None for x in uses)
-            ctx.ob('C15.R2', f'CacheLruStrong.{fn.name}:locked', lm.where(fn), 'the underlying dict is only touched under the lock', ok, '')
+            nl += 1
+            bad = [x for x in uses if _enclosing_with(x, fn) is None]
+            one = len({id(_enclosing_with(x, fn)) for x in uses}) == 1
+            ctx.ob('C15.R2', f'CacheLruStrong.{fn.name}:locked', lm.where(fn),
+                   'the underlying dict is only touched inside one `with self._lock` block', not bad and one,
+                   f'`{norm(bad[0])[:60]}` runs without the lock' if bad else 'several critical sections')
+        ctx.require(nl >= 3, f'CacheLruStrong: only {nl} methods touching the underlying dict were recognised')
     conf = repo.mod('beartype._conf.confmain')
     new = repo.find_def(conf.name, 'BeartypeConf.__new__')
     acc = [x for x in walk_shallow(new) if isinstance(x, ast.Name) and x.id == '_beartype_conf_args_to_conf']
